@@ -17,6 +17,9 @@ fn gen(r: &mut Rng, corpus: &[String]) -> Case {
     let cfg = RuleCfg { max_side: 2, ..RuleCfg::default() };
     // only rules that parse (a sequence with one unparsable rule fails as a whole and exercises nothing)
     let rules: Vec<String> = (0..n).map(|_| { for _ in 0..6 { let x = if !corpus.is_empty() && r.chance(1, 3) { r.pick(corpus).clone() } else if r.chance(1, 4) { r.pick(&crate::c08::TEMPLATES).to_string() } else { plain(&rand_rule(r, &cfg)) }; if compile1(&x).is_ok() { return x } } "a > a".to_string() }).collect();
+    // a quarter of the lists also hold blank and comment-only lines (they are lines of a group like any other, and do nothing)
+    let mut rules = rules;
+    if r.chance(1, 4) { for _ in 0..r.range(1, 2) { let k = r.below(rules.len() + 1); rules.insert(k, [";; a comment", "", "   ", ";; a > e / _#"][r.below(4)].to_string()); } }
     let mut word = rand_word(r, &WordCfg::default());
     match r.below(12) {
         0 => { word = word.replacen(['t', 's'], "¢", 1) }
